@@ -41,6 +41,7 @@ Writes coq/gen/C02Recv.v:
    that nothing else stands in between.)
   RESERVED_MASK_SHORT, RESERVED_MASK_LONG, PROTOCOL_VIOLATION_CODE, SPIN_BIT, MAX_ACK_RANGES, ACK_DELAY_MS : Z
   GET_EPOCH_OK, DISCARD_EPOCH_OK, CLOSE_OK, SPIN_FN_OK : bool   get_epoch / _discard_epoch / close / get_spin_bit have the pinned body
+  DISCARD_SPACE_CLEARS_ACK_AT : bool   recovery.py discard_space writes exactly one modelled attribute, `space.ack_at = None`, unconditionally
   DISCARD_SITES : list (Z * Z)    every call of _discard_epoch in connection.py as (function, epoch), in source order:
                                   function 1 datagrams_to_send (guard `sent_handshake and self._is_client`), 2 receive_datagram,
                                   3 _close_end (every epoch: epoch code 9), 4 _handle_crypto_frame (guard `not self._is_client`
@@ -208,6 +209,10 @@ def _writes_modelled(node):
     return None
 
 
+def _exits_early(f):
+    return any(isinstance(n, (ast.Return, ast.Raise)) for n in ast.walk(f))
+
+
 def _mask_holes(stmt):
     """106: the two integer literals assigned to reserved_mask -> holes; returns (text, [values])"""
     s = _strip(stmt)
@@ -291,6 +296,7 @@ def read_all():
     psrc = open(os.path.join(REPO, "src", "aioquic", "quic", "packet.py")).read()
     rsrc = open(os.path.join(REPO, "src", "aioquic", "quic", "congestion", "base.py")).read()
     ctree, ptree, rtree = ast.parse(csrc), ast.parse(psrc), ast.parse(rsrc)
+    rtree2 = ast.parse(open(os.path.join(REPO, "src", "aioquic", "quic", "recovery.py")).read())
     rd = _func(ctree, "QuicConnection", "receive_datagram")
     loops = [s for s in rd.body if isinstance(s, ast.While) and _u(s.test) == "not buf.eof()"]
     if len(loops) != 1 or loops[0].orelse:
@@ -356,7 +362,10 @@ def read_all():
         raise GenError("self._ack_delay is written outside __init__: %s" % wr)
     consts["ACK_DELAY_MS"] = round(gran * 1000)
 
+    ds = _func(rtree2, "QuicPacketRecovery", "discard_space")
+    ds_ack = [_u(x) for x in ds.body if isinstance(x, ast.Assign) and any(isinstance(t, ast.Attribute) and t.attr in MODELLED_ATTRS for t in x.targets)]
     flags = {
+        "DISCARD_SPACE_CLEARS_ACK_AT": ds_ack == ["space.ack_at = None"] and not _exits_early(ds),
         "GET_EPOCH_OK": _body_text(_top_func(ctree, "get_epoch")) == GET_EPOCH,
         "DISCARD_EPOCH_OK": _body_text(_func(ctree, "QuicConnection", "_discard_epoch")) == DISCARD_EPOCH,
         "CLOSE_OK": _body_text(_func(ctree, "QuicConnection", "close")) == CLOSE,
